@@ -446,6 +446,30 @@ impl DMatrix {
   { unimplemented!() }
 }
 
+
+// =============================================================================== user closures (rule X7)
+/// `Box<dyn Fn(&DVector<S>, &[S]) -> DVector<S> + Send + Sync>`: an opaque callable with a ghost function.
+/// Panics inside user closures are out of scope. The result is some fully initialised column vector
+/// (of ANY length: checking it is the model's job, C17).
+#[verifier::external_body]
+pub struct BaseFunc { _p: core::marker::PhantomData<u8> }
+pub open spec fn sc_seq(s: Seq<Sc>) -> Seq<real> { Seq::new(s.len(), |i: int| s[i]@) }
+impl BaseFunc {
+  pub uninterp spec fn g_call(&self, x: MatR, params: Seq<real>) -> MatR;
+  #[verifier::external_body]
+  pub fn call(&self, location: &DMatrix, parameters: &[Sc]) -> (r: DMatrix)
+    requires location.ok()
+    ensures r@ == self.g_call(location@, sc_seq(parameters@)), r.ok(), r@.c == 1 { unimplemented!() }
+}
+impl DMatrix {
+  /// nalgebra as_slice of a column vector: its elements in order
+  #[verifier::external_body]
+  pub fn as_slice(&self) -> (s: &[Sc]) requires self.ok(), self@.c == 1 ensures sc_seq(s@) == self@.e[0] { unimplemented!() }
+  /// nalgebra DVector::from_vec
+  #[verifier::external_body]
+  pub fn from_vec(v: Vec<Sc>) -> (m: DMatrix) ensures m.ok(), m@.c == 1, m@.r == v@.len(), m@.e[0] == sc_seq(v@) { unimplemented!() }
+}
+
 // =============================================================================== varpro leaves (assumed; bounded Kani validation)
 /// src/solvers/levmar/mod.rs `is_all_finite` (iterator `all` over the entries; Verus has no iterator adapters):
 /// true iff every entry is finite. Bounded validation: Kani harness `kani_is_all_finite_2x2`.
